@@ -17,6 +17,7 @@ Definition reads (o : op) : list nat :=
   match o with
   | ONew _ _ _ _ | ODefault _ _ | ORestore _ _ _ _ => []
   | ORestoreFrom _ _ _ r2 | OClone _ r2 => [r2]
+  | OCloneFrom r r2 => [r; r2]
   | OAppend r _ | OWrite r _ | OWriteAll r _ | OIoCopy r _ | OHWrite r _ | OFlush r | OFinish r | OCkpt r | ODebug r
   | OFin _ r | OHash _ r _ => [r]
   end.
@@ -26,9 +27,12 @@ Theorem C15_outputs_local : forall e rs1 rs2 o, (forall r, In r (reads o) -> loo
 Proof.
   intros e rs1 rs2 o H. destruct o; cbn [reads] in H; cbn [step];
     try (rewrite <- (H _ (or_introl eq_refl)));
+    try (rewrite <- (H _ (or_intror (or_introl eq_refl))));
     repeat match goal with
     | |- context [lookup rs1 ?r] => destruct (lookup rs1 r); cbn [fst snd]; auto
     | |- context [h_checkpoint e ?h] => destruct (h_checkpoint e h); cbn [of_res fst snd]; auto
+    | |- context [if (Nat.eqb ?a ?b || negb (same_type ?x ?y))%bool then _ else _] =>
+        destruct (Nat.eqb a b || negb (same_type x y))%bool; cbn [fst snd]; auto
     | |- context [of_res _ ?x _] => destruct x as [[?|]| |]; cbn [of_res fst snd]; auto
     | |- context [of_res _ ?x _] => destruct x; cbn [of_res fst snd]; auto
     end.
